@@ -12,7 +12,7 @@ LEVEL = 'fault_enumeration'
 RULE = ('A real destination agent (key store: right key / wrong key / no key; accept_after_verify on or off) receives a '
         'bundle built by the independent reference source that carries one or two security blocks (BIB on the payload, on '
         'an extension block or on both in either target order, BCB on the payload or on both) each of which is either valid or malformed in exactly one way drawn from: '
-        'unknown key id, altered MAC, first / last target altered after the operation, unknown security context id, target number absent from the bundle, duplicate '
+        'unknown key id, altered MAC, first / last target altered after the operation, target altered while the original content is attached inside the COSE message, unknown security context id, target number absent from the bundle, duplicate '
         'parameter ids, duplicate result ids, two results / zero results for a target, fewer results than targets, '
         'parameters flag clear with a parameter list present, additional protected/unprotected header maps with a '
         'duplicate key, undecodable additional headers, unknown critical COSE header, result value that is not a COSE '
@@ -34,7 +34,7 @@ SEC_REASONS = {12, 13, 14, 15, 16}
 MALFORMATIONS = ['none', 'wrong-kid', 'bad-tag', 'unknown-ctx', 'target-missing', 'dup-param', 'dup-result-id', 'two-results',
                  'zero-results', 'fewer-results', 'params-flag-clear', 'no-params-default-scope', 'addl-dup-keys',
                  'addl-undecodable', 'crit-header', 'result-not-array', 'result-garbage', 'wrong-tag-kind', 'unknown-tag',
-                 'asb-garbage', 'asb-empty', 'addl-protected-ok', 'alter-target-0', 'alter-target-1']
+                 'asb-garbage', 'asb-empty', 'addl-protected-ok', 'alter-target-0', 'alter-target-1', 'attached-payload']
 BLOCKS = ['bib-payload', 'bib-ext', 'bcb-payload', 'bib-multi', 'bib-multi-r', 'bcb-multi', 'bcb-multi-r']
 TARGETS = {'bib-payload': [1], 'bib-ext': [2], 'bcb-payload': [1], 'bib-multi': [2, 1], 'bib-multi-r': [1, 2],
            'bcb-multi': [2, 1], 'bcb-multi-r': [1, 2]}
@@ -128,6 +128,15 @@ def malform(bundle, sec_type, mal):
         data[0] ^= 0x04
         tgt['data'] = bytes(data).hex()
         return bundle
+    elif mal == 'attached-payload':
+        # the sender's original content rides in the (normally nil) payload / ciphertext field of the COSE message while
+        # the target block itself was altered: the operation covers the block, so it must not verify
+        tgt = next(b for b in bundle['blocks'] if b['num'] == asb['targets'][0])
+        msg[2] = bytes.fromhex(tgt['data'])
+        asb['results'][0][0] = [rid, cb.enc(msg)]
+        data = bytearray(bytes.fromhex(tgt['data']) or b'\x00')
+        data[-1] ^= 0x20
+        tgt['data'] = bytes(data).hex()
     elif mal == 'unknown-ctx':
         asb['ctx'] = 99
     elif mal == 'target-missing':
